@@ -15,11 +15,13 @@ var propTable = map[string]propFn{
 	"C03": checkC03,
 	"C04": checkC04,
 	"C05": checkC05,
+	"C06": checkC06,
 	"C10": checkC10,
 	"C11": checkC11,
 	"C12": checkC12,
 	"C14": checkC14,
 	"C17": checkC17,
+	"C18": checkC18,
 	"C19": checkC19,
 }
 
